@@ -231,6 +231,8 @@ class Emulsion(list):
             force_consistency (bool, optional):
                 Whether to ensure that all droplets are of the same type
         """
+        if droplets is self:
+            droplets = list(self)  # extending an emulsion by itself would never end
         for droplet in droplets:
             self.append(droplet, copy=copy, force_consistency=force_consistency)
 
